@@ -11,6 +11,8 @@ def enc(o):
         return o
     if isinstance(o, (np.bool_,)):
         return {"$ns": bool(o), "$dt": "bool"}
+    if isinstance(o, np.generic) and o.dtype.kind in "fc" and o.dtype.itemsize > (8 if o.dtype.kind == "f" else 16):
+        return {"$ns": enc(float(o) if o.dtype.kind == "f" else complex(o)), "$dt": o.dtype.name}      # extended precision has no python twin
     if isinstance(o, np.generic):
         return {"$ns": enc(o.item()), "$dt": o.dtype.name}
     if isinstance(o, int):
@@ -23,6 +25,8 @@ def enc(o):
         if o == 0 and math.copysign(1, o) < 0:
             return {"$f": "-0"}
         return o
+    if isinstance(o, complex):
+        return {"$c": [enc(o.real), enc(o.imag)]}
     if isinstance(o, slice):
         return {"$sl": [enc(o.start), enc(o.stop), enc(o.step)]}
     if o is Ellipsis:
@@ -53,6 +57,8 @@ def dec(o):
     if isinstance(o, dict):
         if "$f" in o:
             return _F[o["$f"]]
+        if "$c" in o:
+            return complex(dec(o["$c"][0]), dec(o["$c"][1]))
         if "$sl" in o:
             return slice(*[dec(x) for x in o["$sl"]])
         if "$el" in o:
